@@ -853,6 +853,15 @@ func famCancelBeforeInvoke(o *corr.Out) {
 			probe(o, sc, "C06:probe-completes", false)
 			finish(o, sc)
 		}
+		// the request cannot be marshalled: Invoke gives up and closes a stream it never invoked
+		sc := &scenario{cfg: Config{Soft: soft}, class: "marshal-error-before-invoke"}
+		sc.do("inv!u1!1!r1.s1:1.x!1!7")
+		ob := sc.do("invf!u2!2!r1.s1:1.x!1!1")
+		if contains(lastPending(ob), "u2") {
+			o.Oracle("C06:probe-completes", sc.request(), "an invoke whose request cannot be marshalled did not return: "+ob)
+		}
+		probe(o, sc, "C06:probe-completes", false)
+		finish(o, sc)
 	}
 }
 
